@@ -300,30 +300,32 @@ class SourceFile:
         self.top = list(scan_items(self.toks, 0, len(self.toks)))
 
     def find(self, selector):
-        """selector: list of path parts, e.g. ['fn diff_schema'] or ['impl Foo', 'fn bar'].
-        Returns (start, body_open, end, impl_header or None)."""
-        parts = selector
-        if len(parts) == 1:
-            kw, name = parts[0].split(None, 1)
-            hits = [it for it in self.top if it[0] == kw and it[1] == name]
-            if len(hits) != 1:
-                raise LostAnchor("%s: %d matches for '%s'" % (self.path, len(hits), parts[0]))
-            return hits[0][2], hits[0][3], hits[0][4], None
-        if len(parts) == 2:
-            header = norm(parts[0])
-            hits = [it for it in self.top if it[0] in ("impl", "trait") and it[1] == header]
-            if not hits:
-                raise LostAnchor("%s: no '%s'" % (self.path, parts[0]))
-            kw, name = parts[1].split(None, 1)
-            found = []
-            for it in hits:
-                inner = list(scan_items(self.toks, it[3] + 1, it[4] - 1))
-                for jt in inner:
-                    if jt[0] == kw and jt[1] == name:
-                        found.append((jt[2], jt[3], jt[4], header))
-            if len(found) != 1:
-                raise LostAnchor("%s: %d matches for '%s :: %s'" % (self.path, len(found), parts[0], parts[1]))
-            return found[0]
+        """selector: list of path parts, e.g. ['fn diff_schema'], ['impl Foo', 'fn bar'] or
+        ['mod crypto', 'impl Read for X', 'fn read'].  Returns (start, body_open, end, impl_header or None)."""
+        items = self.top
+        header = None
+        for depth, part in enumerate(selector):
+            last = depth == len(selector) - 1
+            if part.startswith(("impl", "trait")) and not last:
+                hdr = norm(part)
+                hits = [it for it in items if it[0] in ("impl", "trait") and it[1] == hdr]
+                if not hits:
+                    raise LostAnchor("%s: no '%s'" % (self.path, part))
+                header = hdr
+                nxt = []
+                for it in hits:
+                    nxt += list(scan_items(self.toks, it[3] + 1, it[4] - 1))
+                items = nxt
+                continue
+            kw, name = part.split(None, 1)
+            hits = [it for it in items if it[0] == kw and it[1] == name]
+            if last:
+                if len(hits) != 1:
+                    raise LostAnchor("%s: %d matches for '%s'" % (self.path, len(hits), " :: ".join(selector)))
+                return hits[0][2], hits[0][3], hits[0][4], header
+            if kw != "mod" or len(hits) != 1:
+                raise LostAnchor("%s: %d matches for container '%s'" % (self.path, len(hits), part))
+            items = list(scan_items(self.toks, hits[0][3] + 1, hits[0][4] - 1))
         raise ExtractError("bad selector %r" % (selector,))
 
 
@@ -824,7 +826,10 @@ def apply_fn_contract(toks, item, log):
             inserts.append((k + 1, " " + spec["iter"] + ":"))
         inserts.append((lo, "\n" + spec["text"].rstrip() + "\n"))
     for where, text in item.get("proofs", []):
-        block = "\nproof {\n" + text.rstrip() + "\n}\n"
+        if text.startswith("\0RAW"):
+            block = "\n" + text[4:].rstrip() + "\n"   # ghost statements (let ghost ...) spliced as they are
+        else:
+            block = "\nproof {\n" + text.rstrip() + "\n}\n"
         if where == "body_start":
             inserts.append((ibody + 1, block))
         elif where.startswith("loop_start:"):
@@ -919,6 +924,8 @@ def parse_unit(path):
             cur.setdefault("loops", {})[sub[1]] = {"text": text, "iter": sub[2]}
         elif sub[0] == "proof":
             cur.setdefault("proofs", []).append((sub[1], text))
+        elif sub[0] == "raw":
+            cur.setdefault("proofs", []).append((sub[1], "\0RAW" + text))
         elif sub[0] == "impl_items":
             cur["impl_items"] = text
         elif sub[0] == "header":
@@ -1005,12 +1012,18 @@ def parse_unit(path):
                 elif d.startswith("proof at "):
                     flush_sub()
                     sub = ("proof", d[len("proof at "):].strip())
+                elif d.startswith("raw at "):
+                    flush_sub()
+                    sub = ("raw", d[len("raw at "):].strip())
                 elif d == "impl_items":
                     flush_sub()
                     sub = ("impl_items",)
                 elif d == "header":
                     flush_sub()
                     sub = ("header",)
+                elif d.startswith("attr "):
+                    flush_sub()
+                    cur.setdefault("attrs", []).append(d[5:].strip())
                 elif d == "external_body":
                     flush_sub()
                     cur["external_body"] = True
@@ -1048,12 +1061,10 @@ def parse_unit(path):
 
 
 def split_selector(rest):
-    """'impl<T: A::B> X for Y :: fn foo' -> ['impl<..> X for Y', 'fn foo'] (split at the
-    last ' :: ' that is followed by an item keyword)."""
-    m = re.match(r"^(.*\S)\s+::\s+((?:fn|const|type)\s+\w+)\s*$", rest)
-    if m and m.group(1).split(None, 1)[0].startswith(("impl", "trait")):
-        return [m.group(1).strip(), m.group(2).strip()]
-    return [rest.strip()]
+    """'mod crypto :: impl<T: A::B> X for Y :: fn foo' -> ['mod crypto', 'impl<..> X for Y', 'fn foo']: split at
+    every ' :: ' that is followed by an item keyword."""
+    parts = re.split(r"\s+::\s+(?=(?:fn|const|type|struct|enum|impl|trait|mod)\b)", rest.strip())
+    return [p.strip() for p in parts]
 
 
 # ---------------------------------------------------------------------------------------
@@ -1096,6 +1107,9 @@ def extract_unit(unit_path, repo, out_rs, out_meta):
                 toks = rule_literal_to_string(toks, log)
             item["selector_text"] = " :: ".join(item["selector"])
             toks = apply_fn_contract(toks, dict(item, selector=item["selector_text"]), log)
+            if item.get("attrs"):
+                toks = tokenize("\n".join(item["attrs"]) + "\n") + toks
+                log.append("R5: verifier attributes added: %s" % ", ".join(item["attrs"]))
             if item.get("external_body"):
                 toks = make_external_body(toks)
                 log.append("R6: body replaced by external_body (assumption)")
@@ -1179,13 +1193,21 @@ def extract_unit(unit_path, repo, out_rs, out_meta):
 
 
 def find_raw_header(sf, header):
-    for it in sf.top:
-        if it[0] in ("impl", "trait") and it[1] == header:
-            # raw text from the keyword up to body_open
-            toks = sf.toks[it[2]:it[3]]
-            toks = strip_trivia_and_attrs(toks, keep_repr=False)
-            return text_of(toks).strip()
-    raise LostAnchor("header " + header)
+    def search(items):
+        for it in items:
+            if it[0] in ("impl", "trait") and it[1] == header:
+                toks = sf.toks[it[2]:it[3]]
+                toks = strip_trivia_and_attrs(toks, keep_repr=False)
+                return text_of(toks).strip()
+            if it[0] == "mod" and it[3] is not None:
+                r = search(list(scan_items(sf.toks, it[3] + 1, it[4] - 1)))
+                if r:
+                    return r
+        return None
+    r = search(sf.top)
+    if r is None:
+        raise LostAnchor("header " + header)
+    return r
 
 
 if __name__ == "__main__":
